@@ -9,6 +9,7 @@
     select_eq_xp_step select_eq_xp_chain select_eq_xp_childpath select_eq_xp_union
     select_eq_xp_nonpositional select_eq_xp_union_nonpositional select_eq_xp_nonpositional_default select_eq_xp_kmp select_eq_xp_attribute select_eq_xp_attribute_step
     select_eq_xp_fragments select_eq_xp_fragments_default pattern_matches_eq_xp_fragments
+    select_eq_xp_simple_spellings select_eq_xp_simple_spellings_default
     select_eq_xp_chain_attribute select_eq_xp_chain_attribute_default
     pattern_matches_eq_xp
     parser_accepts_subset_partial parser_accepts_steps_partial
@@ -30,6 +31,7 @@ import Genshi.Lemmas.PathNonPos
 import Genshi.Lemmas.PathAttr
 import Genshi.Lemmas.PathSimpleAttr
 import Genshi.Lemmas.PathFrags
+import Genshi.Lemmas.PathFragsSelf
 import Genshi.Lemmas.PathKmpRun
 namespace Genshi.Props.C05
 open Genshi Genshi.Path
@@ -866,6 +868,57 @@ theorem pattern_matches_eq_xp_fragments (frags : List Frag) (hok : Frags.FragsOk
   simp only [pathTest, List.map_cons, List.map_nil, mkMatcher]
   rw [Frags.runTest_simpleL, Frags.fragments_normPath frags hok]
   exact Bool.eq_iff_iff.mpr ((Frags.simple_marks_pattern ns (toXVars vs) frags hok tag attrs kids hkcl).2 x)
+
+/-- **select_eq_xp** under SimplePathStrategy for every spelling it supports without an
+    attribute step: ANY non-empty path over the child / descendant / descendant-or-self / self
+    axes (in any order, `self::` steps anywhere) with name / `text()` / `comment()` tests and no
+    predicates.  `Path.select` with the fragments `__init__` computes delivers `Ref.xpSelect`
+    (`t/self::t` is merged, `t/self::u` selects nothing — in XPath too:
+    `Frags.fragments_sem`). -/
+theorem select_eq_xp_simple_spellings (p : LocPath) (hp : ∀ s ∈ p, Frags.SStep s) (hne : p ≠ [])
+    (ns : NsMap) (vs : Vars) (tag : QName) (attrs : AttrList) (kids : List Node)
+    (hcl : (Node.elem tag attrs kids).clean = true) :
+    select [p] ns vs (Node.elem tag attrs kids).flatten (some .simple)
+      = Ref.xpSelect [p] ns (toXVars vs) (.elem tag attrs kids) := by
+  have hkcl : cleanList kids = true := by simpa [Node.clean] using hcl
+  have hrok : (Node.elem tag attrs kids).ok = true := ok_of_clean _ hcl
+  have hok' : okList kids = true := by simpa [Node.ok] using hrok
+  unfold select
+  simp only [pathTest, List.map_cons, List.map_nil, mkMatcher]
+  exact select_union ns vs (toXVars vs) tag attrs kids hok' [p] _ _
+    (.cons (Frags.operand_simple_supported ns vs p hp hne tag attrs kids hkcl) .nil)
+
+theorem simpleSupports_of_sstep (p : LocPath) (hp : ∀ s ∈ p, Frags.SStep s) (hne : p ≠ []) :
+    simpleSupports p = true := by
+  cases p with
+  | nil => exact absurd rfl hne
+  | cons s0 rest =>
+    simp only [simpleSupports, Bool.and_eq_true, List.all_eq_true, bne_iff_ne, ne_eq]
+    refine ⟨(hp s0 List.mem_cons_self).2.2, fun s hs => ?_⟩
+    obtain ⟨h1, h2, _⟩ := hp s hs
+    rcases Kmp.simpleT_cases s.test h2 with ⟨n, h⟩ | h | h <;> simp [h1, h]
+
+/-- the same with the strategy `Path.__init__` picks by itself (two or more steps) -/
+theorem select_eq_xp_simple_spellings_default (p : LocPath) (hp : ∀ s ∈ p, Frags.SStep s) (h2 : 2 ≤ p.length)
+    (ns : NsMap) (vs : Vars) (tag : QName) (attrs : AttrList) (kids : List Node)
+    (hcl : (Node.elem tag attrs kids).clean = true) :
+    select [p] ns vs (Node.elem tag attrs kids).flatten
+      = Ref.xpSelect [p] ns (toXVars vs) (.elem tag attrs kids) := by
+  have hne : p ≠ [] := by intro h; rw [h] at h2; simp at h2
+  have h := select_eq_xp_simple_spellings p hp hne ns vs tag attrs kids hcl
+  have ho : strategyOrder = [.single, .simple, .generic] := by decide
+  have h1 : singleSupports p = false := by unfold singleSupports; exact beq_false_of_ne (by omega)
+  have hc : chooseStrategy p = some .simple := by
+    simp [chooseStrategy, ho, List.find?, Strategy.supports, h1, simpleSupports_of_sstep p hp hne]
+  unfold select at h ⊢
+  simp only [pathTest, List.map_cons, List.map_nil, hc, Option.getD_some] at h ⊢
+  exact h
+
+-- non-vacuity: `descendant::a/self::a/b` on <r><a><b/></a><b/></r> selects the inner <b/>
+example : select [[⟨.descendant, .localName false ['a'], []⟩, ⟨.self, .localName false ['a'], []⟩,
+                   ⟨.child, .localName false ['b'], []⟩]] [] []
+    (Node.elem ⟨[], ['r']⟩ [] [Node.elem ⟨[], ['a']⟩ [] [Node.elem ⟨[], ['b']⟩ [] []], Node.elem ⟨[], ['b']⟩ [] []]).flatten
+    = [.ev (.start ⟨[], ['b']⟩ []), .ev (.end_ ⟨[], ['b']⟩)] := by decide +kernel
 
 /-! ## Stage 3 for attributes: paths that end in an attribute step -/
 
